@@ -2,6 +2,9 @@
 //   threads_drv --out t --mode sched  --seed S --budget N     forced interleavings at the DSPLIB_VERIF yield points
 //   threads_drv --out t --mode stress --seed S --budget N --threads T   free-running threads from a barrier (also under TSan)
 #include "common.h"
+#include <sys/wait.h>
+#include <unistd.h>
+#include <complex>
 #include <dsplib.h>
 #include <dsplib/verif_hooks.h>
 #include <atomic>
@@ -646,6 +649,70 @@ static void stress_cold(Json& js, int T) {
     js.begin("Stress").str("kind", "cold number theory").num("n", 0).num("threads", T).num("calls", 24).num("mismatches", bad).end();
 }
 
+// the very first transforms of a PROCESS made by several threads at once (whatever the library sets up lazily on first use -
+// tables, registries - is set up under contention): forked children, each releases T threads from a barrier (staggered by a
+// few tens of microseconds) into their first power-of-two / mixed transform; results are judged against a long-double DFT
+// computed without the library.  Must be the first thing this driver does (the parent never touches the library).
+static void stress_coldproc(Json& js, vh::Rng& rng, int T, int children) {
+    long bad = 0, crashed = 0;
+    for (int c = 0; c < children; ++c) {
+        const int n = 1 << (int)rng.range(4, 9);
+        const int lag = (int)rng.range(0, 60);
+        const pid_t pid = fork();
+        if (pid == 0) {
+            alarm(60);
+            std::atomic<int> ready{0};
+            std::atomic<bool> go{false};
+            std::atomic<long> b{0};
+            std::vector<std::thread> th;
+            for (int t = 0; t < T; ++t) {
+                th.emplace_back([&, t] {
+                    const int nn = (t % 3 == 2) ? n * 3 : n;   // some threads a composite with the same power-of-two factor
+                    std::vector<std::complex<long double>> xl(nn);
+                    arr_cmplx x(nn);
+                    for (int i = 0; i < nn; ++i) {
+                        const double re = std::sin(0.37 * i + t), im = std::cos(0.11 * i * (t + 1));
+                        x[i] = cmplx_t(re, im), xl[i] = std::complex<long double>(re, im);
+                    }
+                    ready.fetch_add(1);
+                    while (!go.load()) {
+                    }
+                    const auto t0 = std::chrono::steady_clock::now();
+                    while (std::chrono::steady_clock::now() - t0 < std::chrono::microseconds((long)lag * t)) {
+                    }
+                    const arr_cmplx y = fft(x);
+                    long mism = 0;
+                    for (int k = 0; k < nn; k += std::max(1, nn / 16)) {
+                        std::complex<long double> acc = 0;
+                        for (int i = 0; i < nn; ++i) {
+                            const long double ph = -2 * 3.14159265358979323846264338327950288L * (long double)(((long long)i * k) % nn) / nn;
+                            acc += xl[i] * std::complex<long double>(cosl(ph), sinl(ph));
+                        }
+                        mism += !(std::abs(std::complex<long double>(y[k].re, y[k].im) - acc) <= 1e-9L * nn);
+                    }
+                    b.fetch_add(mism);
+                });
+            }
+            while (ready.load() < T) {
+            }
+            go.store(true);
+            for (auto& q : th) {
+                q.join();
+            }
+            _exit((int)std::min<long>(b.load(), 100));
+        }
+        int st = 0;
+        waitpid(pid, &st, 0);
+        if (WIFEXITED(st)) {
+            bad += WEXITSTATUS(st);
+        } else {
+            ++crashed;
+        }
+    }
+    js.begin("Stress").str("kind", "first transforms of a process").num("n", children).num("threads", T).num("calls", 1)
+      .num("mismatches", bad + 1000 * crashed).end();
+}
+
 // every thread constructs (and uses) its own objects of thread-specific sizes at the same time: constructors must
 // not share hidden state (static tables, process-wide caches)
 static void stress_construct(Json& js, vh::Rng& rng, int T, int reps) {
@@ -899,7 +966,8 @@ int main(int argc, char** argv) {
         replay_schedules(js, rng, vh::arg(argc, argv, "--sched", ""));
     } else if (mode == "stress") {
         verif::on_yield = nullptr;
-        stress_cold(js, T);   // first: nothing has been warmed up single-threaded yet
+        stress_coldproc(js, rng, T, 60);   // first of all: the parent has not touched the library yet
+        stress_cold(js, T);   // next: nothing has been warmed up single-threaded yet
         for (long t = 0; t < budget; ++t) {
             stress_shared(js, rng, T, 20);
             stress_shared_inputs(js, rng, T, 30);
